@@ -150,6 +150,14 @@ impl Database {
             })
             .await
             .flatten();
+        #[cfg(sierra_db_sierradb_verif)]
+        crate::verif::point(
+            "rd.tx.live_lookup",
+            &[
+                ("bucket", bucket_id as u64),
+                ("found", segment_id_offset.is_some() as u64),
+            ],
+        );
 
         let (reply_tx, reply_rx) = oneshot::channel();
         self.reader_pool.spawn(move |with_readers| {
@@ -245,6 +253,8 @@ impl Database {
         if let Some(latest) = latest {
             return Ok(Some(latest));
         }
+        #[cfg(sierra_db_sierradb_verif)]
+        crate::verif::point("rd.pseq.live_miss", &[("bucket", bucket_id as u64)]);
 
         let (reply_tx, reply_rx) = oneshot::channel();
         self.reader_pool.spawn({
@@ -322,6 +332,8 @@ impl Database {
         if let Some(latest) = latest {
             return Ok(Some(latest));
         }
+        #[cfg(sierra_db_sierradb_verif)]
+        crate::verif::point("rd.sver.live_miss", &[("bucket", bucket_id as u64)]);
 
         let (reply_tx, reply_rx) = oneshot::channel();
         self.reader_pool.spawn({
